@@ -769,6 +769,30 @@ theorem step_n_le (sch : Schema) (s : Sess) (op : Op) : s.n ≤ (step sch s op).
   | find c pk kw => exact Nat.le_of_eq (find_same (sch := sch) s c pk kw).n.symm
   | proxy o => simp only [proxy_state]; exact Nat.le_refl _
 
+/-! ## histories -/
+
+/-- no row load of the history is refused with TransactionIntegrityError (decidable; a row the database hands out
+    conflicts with the session only when the session is stale: a concurrent writer changed rows it had read) -/
+def noLoadConflict (sch : Schema) (s : Sess) : List Op → Bool
+  | [] => true
+  | op :: ops => !loadConflict sch s op && noLoadConflict sch (step sch s op) ops
+
+theorem run_append (sch : Schema) (s : Sess) (a b : List Op) : run sch s (a ++ b) = run sch (run sch s a) b := by
+  induction a generalizing s with
+  | nil => rfl
+  | cons op a ih => exact ih _
+
+theorem run_n_le (sch : Schema) (s : Sess) (ops : List Op) : s.n ≤ (run sch s ops).n := by
+  induction ops generalizing s with
+  | nil => exact Nat.le_refl _
+  | cons op ops ih => exact Nat.le_trans (step_n_le sch s op) (ih _)
+
+theorem noLoadConflict_append (sch : Schema) (s : Sess) (a b : List Op) :
+    noLoadConflict sch s (a ++ b) = (noLoadConflict sch s a && noLoadConflict sch (run sch s a) b) := by
+  induction a generalizing s with
+  | nil => simp [noLoadConflict, run]
+  | cons op a ih => simp only [List.cons_append, noLoadConflict, run, ih, Bool.and_assoc]
+
 /-! ## every returned object is an object of the session -/
 
 theorem findCand_lt {sch : Schema} {s : Sess} (hI : Inv sch s) {pk : Option KeyVal} {kw : List (Nat × Int)} {o : ObjId}
